@@ -82,10 +82,12 @@ func (m *pbfModel) fieldAccesses(owners map[string]bool) []fieldAccess {
 								fa.write = true
 							}
 						} else {
-							fa.write = true // address escapes: treat as write
+							fa.write = true            // address escapes: treat as write
+							fa.method = pbfSyncAddr(f) // (the address of a sync primitive is how it is shared: not a copy)
 						}
 					} else {
 						fa.write = true
+						fa.method = pbfSyncAddr(f)
 					}
 				}
 			}
@@ -358,4 +360,14 @@ func (m *pbfModel) underDoneCase(a fieldAccess) bool {
 		}
 	}
 	return false
+}
+
+// pbfSyncAddr marks the taking of the address of a sync primitive (`&dec.wg` handed to a goroutine): the primitive is
+// then used through the pointer's methods, it is neither copied nor overwritten.
+func pbfSyncAddr(f *types.Var) string {
+	switch namedPath(f.Type()) {
+	case "sync.WaitGroup", "sync.Mutex", "sync.RWMutex", "sync.Once":
+		return "&"
+	}
+	return ""
 }
